@@ -499,11 +499,28 @@ func init() { registerReplay(c01Prop) }
 
 const c01TextAlphabet = "ABCDEFGHIJKLMNOPQRSTUVWXYZabcdefghijklmnopqrstuvwxyz0123456789,:()'/+-"
 
+// c01WideAlphabet: every other printable ASCII character; used for some words of free-text header lines.
+const c01WideAlphabet = ".;=_*[]<>\"#%&!?@^~|`$\\{}"
+
 func genWord(t *rapid.T, maxLen int) string {
 	n := rapid.IntRange(1, maxLen).Draw(t, "wlen")
 	b := make([]byte, n)
 	for i := range b {
 		b[i] = c01TextAlphabet[rapid.IntRange(0, len(c01TextAlphabet)-1).Draw(t, "wc")]
+	}
+	return string(b)
+}
+
+// genWideWord mixes in punctuation that means something somewhere in the flat-file grammar.
+func genWideWord(t *rapid.T, maxLen int) string {
+	n := rapid.IntRange(1, maxLen).Draw(t, "wlen")
+	b := make([]byte, n)
+	for i := range b {
+		if rapid.IntRange(0, 2).Draw(t, "wide") == 0 {
+			b[i] = c01WideAlphabet[rapid.IntRange(0, len(c01WideAlphabet)-1).Draw(t, "wwc")]
+		} else {
+			b[i] = c01TextAlphabet[rapid.IntRange(0, len(c01TextAlphabet)-1).Draw(t, "wc")]
+		}
 	}
 	return string(b)
 }
@@ -515,6 +532,9 @@ func genLine(t *rapid.T, maxCols int) string {
 	n := rapid.IntRange(1, 8).Draw(t, "nwords")
 	for i := 0; i < n; i++ {
 		w := genWord(t, 12)
+		if rapid.IntRange(0, 3).Draw(t, "widew") == 0 {
+			w = genWideWord(t, 12)
+		}
 		if total+len(w)+1 > maxCols {
 			break
 		}
@@ -540,7 +560,8 @@ func genItems(t *rapid.T, max int) []string {
 	n := rapid.IntRange(0, max).Draw(t, "nitems")
 	var out []string
 	for i := 0; i < n; i++ {
-		it := strings.TrimRight(genLine(t, 30), ".")
+		// items of a "; "-separated, "."-terminated list: no "; " inside, no trailing "."
+		it := strings.TrimRight(strings.ReplaceAll(genLine(t, 30), "; ", ";_"), ".")
 		if it == "" {
 			it = "k"
 		}
